@@ -68,6 +68,7 @@ class TreeResult(ResultDict):
             added_paths = {i.path(): i for i in iterable_item_added}
             removed_paths = {i.path(): i for i in iterable_item_removed}
             mutual_paths = set(added_paths) & set(removed_paths)
+            mutual_paths.discard(None)  # locations that have no string form are not one location
 
             if mutual_paths and 'values_changed' not in self or self['values_changed'] is None:
                 self['values_changed'] = SetOrdered()
